@@ -245,20 +245,27 @@ func VerifLabelConsts() [][2]any {
 // verifInitialLabel finds by behaviour which HKDF label computeSecrets uses for a side.
 func verifInitialLabel(client bool) string {
 	connID := protocol.ParseConnectionID([]byte{1, 2, 3, 4, 5, 6, 7, 8})
-	for _, v := range []protocol.Version{protocol.Version1} {
+	found := ""
+	for _, v := range []protocol.Version{protocol.Version1, protocol.Version2} {
 		cs, ss := computeSecrets(connID, v)
 		got := ss
 		if client {
 			got = cs
 		}
 		initialSecret := hkdf.Extract(crypto.SHA256.New, connID.Bytes(), getSalt(v))
+		this := "?"
 		for _, l := range []string{"client in", "server in"} {
 			if string(hkdfExpandLabel(initialSuite.Hash, initialSecret, []byte{}, l, 32)) == string(got) {
-				return l
+				this = l
 			}
 		}
+		// the label must not depend on the version (RFC 9369 keeps "client in"/"server in")
+		if found != "" && found != this {
+			return "?version-dependent"
+		}
+		found = this
 	}
-	return "?"
+	return found
 }
 
 // VerifInitialConsts: salts (hex) and the "client in"/"server in" labels for the constants translator.
